@@ -195,14 +195,16 @@ unsafe fn level_swap<M: Manager>(
             }
         }
 
-        // SAFETY: `e` points to an inner node; the caller will update level
-        // numbers accordingly
-        unsafe { upper.insert_unchecked(manager.clone_edge(e)) };
         for (i, child) in new_children.into_iter().enumerate() {
             // SAFETY: we have exclusive access to all nodes at the old upper
             // level and no child is borrowed.
             manager.drop_edge(unsafe { node.set_child(i, child) });
         }
+        // `set_child()` changes the node's hash value, so the node can only
+        // be inserted now.
+        // SAFETY: `e` points to an inner node; the caller will update level
+        // numbers accordingly
+        unsafe { upper.insert_unchecked(manager.clone_edge(e)) };
 
         for child_node in old_children {
             if child_node.ref_count() == 0 {
